@@ -241,6 +241,7 @@ class Program:
                 except SyntaxError as exc:
                     raise AnalysisError(f"{rel}: does not compile: {exc}") from exc
                 unrolled = unroll_literal_tables(tree)
+                normalise_augassign(tree)
                 self.modules[modname] = ModuleInfo(modname, path, rel, src, tree, is_package=is_pkg)
                 if unrolled:
                     self.unrolled.extend(f"{rel}:{ln}" for ln in unrolled)
@@ -635,6 +636,21 @@ def _literal(e: ast.AST | None) -> bool:
     return isinstance(e, ast.Tuple) and all(_literal(x) for x in e.elts)
 
 
+def _external_constant(m: "ModuleInfo", e: ast.AST | None, prog: "Program") -> bool:
+    """`asyncio.FIRST_COMPLETED`, `signal.SIGINT`: an attribute chain rooted at an imported module that is not part of the analysed program."""
+    if isinstance(e, ast.Tuple):
+        return bool(e.elts) and all(_external_constant(m, x, prog) or _literal(x) for x in e.elts)
+    if not isinstance(e, ast.Attribute):
+        return False
+    root = e
+    while isinstance(root, ast.Attribute):
+        root = root.value
+    if not isinstance(root, ast.Name) or root.id not in m.imports:
+        return False
+    target = m.imports[root.id]
+    return not any(target == mn or target.startswith(mn + ".") or mn.startswith(target + ".") for mn in prog.modules)
+
+
 def fold_constants(prog: "Program") -> list[str]:
     """Normalisation: a module-level (or class-level) name bound exactly once to a literal ("introduce a constant for a magic value") is read as
     that literal wherever it is loaded, also through `from module import NAME`. Class-level constants the rules name themselves, enum members and
@@ -659,7 +675,16 @@ def fold_constants(prog: "Program") -> list[str]:
         top_targets = {t for t in binds}
         consts = {}
         for name, vals in binds.items():
-            if len(vals) == 1 and _literal(vals[0]) and name not in globals_ and name != "__all__" and not name.startswith("__"):
+            v0 = vals[0] if len(vals) == 1 else None
+            if isinstance(v0, ast.List) and all(_literal(x) for x in v0.elts):
+                # a literal list used as a constant: never mutated (no method call on it, no item store, not passed on by name except to `in` / iteration)
+                touched = any((isinstance(a, ast.Attribute) and isinstance(a.value, ast.Name) and a.value.id == name) or
+                              (isinstance(a, ast.Subscript) and isinstance(a.value, ast.Name) and a.value.id == name and isinstance(a.ctx, (ast.Store, ast.Del)))
+                              for a in ast.walk(m.tree))
+                if not touched and name not in globals_:
+                    consts[name] = v0
+                continue
+            if len(vals) == 1 and (_literal(vals[0]) or _external_constant(m, vals[0], prog)) and name not in globals_ and name != "__all__" and not name.startswith("__"):
                 # bound once at module level; a same-named local elsewhere simply shadows it (handled per function)
                 consts[name] = vals[0]
         mod_consts[m.name] = consts
@@ -787,7 +812,9 @@ def inline_attribute_aliases(prog: "Program") -> list[str]:
                 binds[n.id] = binds.get(n.id, 0) + 1
         stored_chains = {ast.unparse(a) for a in ast.walk(fn) if isinstance(a, ast.Attribute) and isinstance(a.ctx, (ast.Store, ast.Del))}
         aliases: dict[str, ast.expr] = {}
-        for st in fn.body:
+        alias_stmts: set[int] = set()
+        own_stmts = [x for x in ast.walk(fn) if isinstance(x, (ast.Assign, ast.AnnAssign)) and id(x) not in in_nested]
+        for st in own_stmts:
             tg, val = None, None
             if isinstance(st, ast.Assign) and len(st.targets) == 1 and isinstance(st.targets[0], ast.Name):
                 tg, val = st.targets[0].id, st.value
@@ -805,6 +832,7 @@ def inline_attribute_aliases(prog: "Program") -> list[str]:
             if any(isinstance(x, ast.Name) and x.id == tg and id(x) in in_nested for nf in nested for x in ast.walk(nf)):
                 continue
             aliases[tg] = val
+            alias_stmts.add(id(st))
         if not aliases:
             continue
 
@@ -814,14 +842,109 @@ def inline_attribute_aliases(prog: "Program") -> list[str]:
                     return ast.copy_location(copy.deepcopy(aliases[node.id]), node)
                 return node
 
-        new_body = []
-        for st in fn.body:
-            is_def = (isinstance(st, ast.Assign) and len(st.targets) == 1 and isinstance(st.targets[0], ast.Name) and st.targets[0].id in aliases) or \
-                     (isinstance(st, ast.AnnAssign) and isinstance(st.target, ast.Name) and st.target.id in aliases)
-            if is_def:
-                continue  # the binding itself disappears (a pure attribute read)
-            new_body.append(T().visit(st))
-        fn.body = new_body or [ast.Pass()]
+        class Drop(ast.NodeTransformer):
+            """the binding itself disappears (a pure attribute read); an emptied block keeps a `pass`"""
+            def generic_visit(self, node):
+                super().generic_visit(node)
+                for fld in ("body", "orelse", "finalbody"):
+                    blk = getattr(node, fld, None)
+                    if isinstance(blk, list) and blk and isinstance(blk[0], ast.stmt):
+                        kept = [x for x in blk if id(x) not in alias_stmts]
+                        if not kept and fld == "body":
+                            kept = [ast.copy_location(ast.Pass(), blk[0])]
+                        setattr(node, fld, kept)
+                return node
+
+            def visit_FunctionDef(self, node):
+                return node if node is not fn else self.generic_visit(node)
+
+            visit_AsyncFunctionDef = visit_FunctionDef
+
+            def visit_Lambda(self, node):
+                return node
+
+        fn.body = [T().visit(st) for st in fn.body]
+        Drop().generic_visit(fn)
         ast.fix_missing_locations(fn)
         done.extend(f"{f.short()}.{a}" for a in aliases)
     return sorted(done)
+
+
+def normalise_augassign(tree: ast.AST) -> int:
+    """`x = x + e` / `self.n = self.n - 1` read as `x += e` / `self.n -= 1` (same target text on both sides, the target is the LEFT operand)."""
+    n = 0
+
+    class T(ast.NodeTransformer):
+        def visit_Assign(self, node):
+            nonlocal n
+            if len(node.targets) == 1 and isinstance(node.targets[0], (ast.Name, ast.Attribute)) and isinstance(node.value, ast.BinOp) \
+                    and isinstance(node.value.left, (ast.Name, ast.Attribute)) and ast.unparse(node.value.left) == ast.unparse(node.targets[0]):
+                n += 1
+                return ast.copy_location(ast.AugAssign(target=node.targets[0], op=node.value.op, value=node.value.right), node)
+            return node
+
+    T().visit(tree)
+    if n:
+        ast.fix_missing_locations(tree)
+    return n
+
+
+def canonicalise_private_params(prog: "Program") -> list[str]:
+    """Normalisation: a parameter of a PRIVATE helper (leading underscore, not a dunder) that receives, at every call site in its own module, the
+    same plain local/parameter name of the caller is renamed to that name (`_put_in_queue(..., *, parameters)` called as `parameters=params`
+    everywhere reads as `params`). Keeps the rules' vocabulary (key / payload / params / loop ...) stable under 'signature hygiene' edits."""
+    renamed: list[str] = []
+    for h in list(prog.functions.values()):
+        if not h.name.startswith("_") or (h.name.startswith("__") and h.name.endswith("__")) or h.parent is not None or isinstance(h.node, ast.Lambda):
+            continue
+        m = h.module
+        sites: list[ast.Call] = []
+        for c in ast.walk(m.tree):
+            if not isinstance(c, ast.Call):
+                continue
+            fn = c.func
+            if h.cls is not None:
+                if isinstance(fn, ast.Attribute) and fn.attr == h.name and isinstance(fn.value, ast.Name) and fn.value.id in ("self", "cls", h.cls.name):
+                    sites.append(c)
+            elif isinstance(fn, ast.Name) and fn.id == h.name:
+                sites.append(c)
+        if not sites or any(isinstance(a, ast.Starred) for c in sites for a in c.args) or any(k.arg is None for c in sites for k in c.keywords):
+            continue
+        a_ = h.node.args
+        pos = [x.arg for x in a_.posonlyargs + a_.args]
+        bound_self = h.cls is not None and "staticmethod" not in h.decorators
+        if bound_self and pos:
+            pos = pos[1:]
+        kwonly = [x.arg for x in a_.kwonlyargs]
+        used_names = {n.id for n in ast.walk(h.node) if isinstance(n, ast.Name)} | {x.arg for x in ast.walk(a_) if isinstance(x, ast.arg)}
+        plan: dict[str, str] = {}
+        for i, p in enumerate(pos + kwonly):
+            got = []
+            for c in sites:
+                v = None
+                if i < len(pos) and i < len(c.args):
+                    v = c.args[i]
+                else:
+                    v = next((k.value for k in c.keywords if k.arg == p), None)
+                got.append(v)
+            if any(v is None or not isinstance(v, ast.Name) for v in got):
+                continue
+            names = {v.id for v in got}
+            if len(names) == 1:
+                a = next(iter(names))
+                if a != p and a not in used_names and a not in plan.values() and a not in ("self", "cls"):
+                    plan[p] = a
+        if not plan:
+            continue
+        for x in ast.walk(h.node.args):
+            if isinstance(x, ast.arg) and x.arg in plan:
+                x.arg = plan[x.arg]
+        for n in ast.walk(h.node):
+            if isinstance(n, ast.Name) and n.id in plan:
+                n.id = plan[n.id]
+        for c in sites:
+            for k in c.keywords:
+                if k.arg in plan:
+                    k.arg = plan[k.arg]
+        renamed.extend(f"{h.short()}({p} -> {a})" for p, a in plan.items())
+    return sorted(renamed)
